@@ -16,6 +16,12 @@ Monitor (three observations per loader call, all taken while the REAL loader run
    nothing exists at <root>/<name>[<ext>] under plain joining (`~user`, `$HOME`, globs ...):
    any other exception class is a violation.
 
+Root side: a separate shard kind enumerates spellings of the search directory itself (relative,
+`.`/`..`, doubled/trailing separators, through directory symlinks, symlinked roots, str / Path /
+list) and holds the loader to realpath(spelling) as the OS resolves it; violation keys of that
+family carry a `/root:<shape>` suffix (plain, dotdot, symlink, symlink+dotdot,
+dotdot-after-symlink).
+
 The shard process runs with its cwd inside the sandbox (so search paths `.`, ``, `Path()`,
 `templates` ... are real roots) and with HOME pointing at a sandbox directory full of canaries
 (so any `~` expansion is visible to the audit hook and the content oracle).
@@ -70,6 +76,18 @@ RULE = (
     "'./', 'templates', './templates', 'templates/../templates', alone, in lists and under "
     "the choice/caching loaders) with the shard's cwd set to a sandbox site directory and "
     "HOME/USERPROFILE set to a sandbox directory outside every root that holds canaries. "
+    "ROOT SIDE: a further family enumerates spellings of ONE search directory in a sandbox "
+    "with directory symlinks (site/app -> ../rel/42/app, site/tl -> ../rel/42/templates, "
+    "site/cur -> ../rel/42): every segment sequence of up to 3 segments over {., .., app, "
+    "tl, cur, templates, sub} and every 4-segment sequence over {.., app, cur, templates, "
+    "42} (1024 sequences; those the OS resolves to a sandbox directory are kept), each "
+    "relative to the cwd as str and in rotating forms (./, absolute, doubled and trailing "
+    "separators, '/.', via ../site/, str vs Path) under FileSystemLoader (with/without "
+    "ext, in a list after a missing directory, in a list before another root), "
+    "CachingFileSystemLoader, ChoiceLoader and CachingChoiceLoader, asked for 16 ordinary "
+    "and must-fail names. The oracle root is os.path.realpath(spelling) (symlinks resolved "
+    "before '..', as the OS does); every directory a lexical or otherwise wrong resolution "
+    "could reach holds the same file names with unique contents. "
     "Access: env.get_template / get_template_async, and {% include 'N' %}, "
     "{% include var %}, {% render 'N' %}, {% extends 'N' %} rendered sync and async. "
     "distinct = hash of (symbolic name, configuration) — the access paths and sync/async "
@@ -95,9 +113,15 @@ ASSUMPTIONS = [
     "directory or the root itself may still surface IsADirectoryError / ValueError "
     "(diagnostic only)",
     "'~root' is assumed to be an existing account and '~c13-no-such-user' a missing one",
+    "symlinks appear only in search-path spellings (root side); no symlink is planted "
+    "inside a root that a generated template name could traverse — a link located inside "
+    "a search directory is out of scope (DESIGN.md C13 L)",
+    "a name with a component longer than NAME_MAX raises OSError(ENAMETOOLONG) today; it "
+    "resolves neither inside nor outside a root and nothing is read: diagnostic only",
 ]
 
 MARK = "C13CANARY"
+ROOT_FILES = ("a", "a.liquid", "a.txt", "index.liquid", "sub/a.liquid")
 PKG = "c13fixpkg"
 
 # ---------------------------------------------------------------------------------------
@@ -181,10 +205,17 @@ class Scratch:
                             secret.liquid                      canary "home"
     Files literally named '~' / '~.liquid' are also planted in A and in the package roots
     (they must stay servable).
+    S/r/...   root-spelling sandbox (cwd of the "roots" shards is S/r/site):
+              r/site/{app -> ../rel/42/app, tl -> ../rel/42/templates, cur -> ../rel/42}
+              and the plain directories r, r/site, r/site/templates, r/templates, r/rel,
+              r/rel/templates, r/rel/42, r/rel/42/templates, r/rel/42/app,
+              r/rel/42/app/templates (+ some sub/), each holding a a.liquid a.txt
+              index.liquid sub/a.liquid with unique contents.
     """
 
-    def __init__(self, nonce: str):
+    def __init__(self, nonce: str, cwd: str = "w/site"):
         self.nonce = nonce
+        self.cwd_rel = cwd
         self.S = os.path.realpath(tempfile.mkdtemp(prefix="vf-c13-"))
         self.canaries: list[tuple[str, str]] = []
         self.inside: dict[str, str] = {}  # abs path -> content
@@ -197,7 +228,7 @@ class Scratch:
             # lifetime of this object (one shard process) and are restored by cleanup()
             os.environ["HOME"] = self.HOME
             os.environ["USERPROFILE"] = self.HOME
-            os.chdir(self.W)
+            os.chdir(os.path.join(self.S, self.cwd_rel))
         except BaseException:
             self.cleanup()
             raise
@@ -259,6 +290,22 @@ class Scratch:
                   "secret.html", "secret.liquid"):
             self._canary("home", f"home/{n}")
         self.W = os.path.join(self.S, "w", "site")
+        # root-spelling sandbox (see ROOT_SEGS): every directory a correct, a lexical or
+        # any other wrong resolution of a search-path spelling could reach holds the same
+        # file names with unique contents, so a wrong directory is visible as foreign
+        # content as well as an open outside realpath(search path)
+        for d in ("r", "r/site", "r/site/templates", "r/templates", "r/rel", "r/rel/templates",
+                  "r/rel/42", "r/rel/42/templates", "r/rel/42/app", "r/rel/42/app/templates",
+                  "r/site/sub", "r/rel/42/sub", "r/rel/sub"):
+            for n in ROOT_FILES:
+                if d.endswith("/sub") and n.startswith("sub/"):
+                    continue
+                self._in(f"{d}/{n}")
+        self.R = os.path.join(self.S, "r")
+        self.RSITE = os.path.join(self.S, "r", "site")
+        os.symlink("../rel/42/app", os.path.join(self.RSITE, "app"), target_is_directory=True)
+        os.symlink("../rel/42/templates", os.path.join(self.RSITE, "tl"), target_is_directory=True)
+        os.symlink("../rel/42", os.path.join(self.RSITE, "cur"), target_is_directory=True)
         self.WT = os.path.join(self.W, "templates")
         self.HOME = os.path.join(self.S, "home")
         self.A = os.path.join(self.S, "p", "A")
@@ -328,12 +375,132 @@ class Cfg:
             "<ROOTNAME>": os.path.basename(self.roots[0]),
         }
         self.t_include_var = env.from_string("[{% include n %}]")
+        self.rootspec: dict[str, str] | None = None  # set for the roots family
+        self.rootshape = ""
+        self.keysuffix = ""
 
     def concrete(self, toks: tuple[str, ...]) -> str:
         return "".join(self.subst.get(t, t) for t in toks)
 
 
 N_CONFIGS = 22
+
+
+_REC_ENV: list[Any] = []
+
+
+def _rec_env_class():  # noqa: ANN202
+    if not _REC_ENV:
+        from liquid2 import Environment
+
+        class RecEnv(Environment):
+            def from_string(self, source, *a, **kw):  # noqa: ANN001, ANN002, ANN003
+                if MON.on:
+                    p = kw.get("path")
+                    MON.built.append((source, None if p is None else str(p)))
+                return super().from_string(source, *a, **kw)
+
+        _REC_ENV.append(RecEnv)
+    return _REC_ENV[0]
+
+
+# --- root-side grammar: spellings of ONE search directory ------------------------------
+ROOT_SEGS = [".", "..", "app", "tl", "cur", "templates", "sub"]   # sequences up to 3
+ROOT_SEGS4 = ["..", "app", "cur", "templates", "42"]               # sequences of exactly 4
+ROOT_LOADERS = ["FS", "FSx", "CFS", "Choice", "FS[missing,root]", "FS[root,other]",
+                "CachingChoice"]
+ROOT_FORMS = [  # (prefix, separator, trailing, as)
+    ("", "/", "", "str"), ("", "/", "", "Path"), ("./", "/", "/", "str"),
+    ("${CWD}/", "/", "", "str"), ("${CWD}/", "/", "", "Path"), ("", "//", "//", "str"),
+    ("${CWD}//", "/", "/.", "str"), (".//", "/", "", "Path"), ("", "/./", "/", "str"),
+    ("../site/", "/", "", "str"), ("${CWD}/../site/", "/", "", "Path"),
+]
+
+
+def root_sequences():
+    """Every segment sequence the roots family considers (valid or not)."""
+    for ln in (1, 2, 3):
+        yield from itertools.product(ROOT_SEGS, repeat=ln)
+    yield from itertools.product(ROOT_SEGS4, repeat=4)
+
+
+N_ROOT_SEQUENCES = sum(len(ROOT_SEGS) ** k for k in (1, 2, 3)) + len(ROOT_SEGS4) ** 4
+# ordinary template names (plus a few that must be refused) asked of every spelled root
+ROOT_NAMES: list[tuple[str, ...]] = [
+    ("a.liquid",), ("a",), ("index",), ("index.liquid",), ("sub/a.liquid",), ("sub/a",),
+    ("./a.liquid",), ("a.txt",), ("nope.liquid",), ("templates/a.liquid",), ("a.liquid/",),
+    ("../a.liquid",), ("../templates/a.liquid",), ("sub/../a.liquid",), ("<ABSIN>",), ("",),
+]
+
+
+def root_shape(spelling: str) -> str:
+    """Classify a spelling by what the OS has to do to resolve it."""
+    parts = [p for p in spelling.split("/") if p not in ("", ".")]
+    cur = "/" if spelling.startswith("/") else os.getcwd()
+    link = False
+    dd_after_link = False
+    for p in parts:
+        if p == "..":
+            if link:
+                dd_after_link = True
+            cur = os.path.realpath(os.path.join(cur, ".."))
+            continue
+        nxt = os.path.join(cur, p)
+        if os.path.islink(nxt):
+            link = True
+        cur = os.path.realpath(nxt)
+    if dd_after_link:
+        return "dotdot-after-symlink"
+    if link:
+        return "symlink+dotdot" if ".." in parts else "symlink"
+    return "dotdot" if ".." in parts else "plain"
+
+
+def make_root_cfg(sc: Scratch, spec: dict[str, str]) -> Cfg | None:
+    """Build one configuration of the roots family from a JSON-able spec, or None when
+    the spelling does not designate a directory below the sandbox."""
+    from pathlib import Path
+
+    from liquid2 import CachingChoiceLoader
+    from liquid2 import CachingFileSystemLoader
+    from liquid2 import ChoiceLoader
+    from liquid2 import FileSystemLoader
+
+    spelling = spec["spelling"].replace("${CWD}", os.getcwd())
+    if not os.path.isdir(spelling):
+        return None
+    real = os.path.realpath(spelling)  # the OS's resolution: symlinks first, then '..'
+    if not (real == sc.R or real.startswith(sc.R + "/")):
+        return None
+    arg: Any = Path(spelling) if spec["as"] == "Path" else spelling
+    kind = spec["loader"]
+    other = os.path.join(sc.S, "p", "B")
+    roots, exts = [spelling], [None]
+    if kind == "FS":
+        loader = FileSystemLoader(arg)
+    elif kind == "FSx":
+        loader, exts = FileSystemLoader(arg, ext=".liquid"), [".liquid"]
+    elif kind == "CFS":
+        loader, exts = CachingFileSystemLoader(arg, ext=".liquid"), [".liquid"]
+    elif kind == "Choice":
+        loader = ChoiceLoader([FileSystemLoader(arg)])
+    elif kind == "CachingChoice":
+        loader = CachingChoiceLoader([FileSystemLoader(arg, ext=".liquid")])
+        exts = [".liquid"]
+    elif kind == "FS[missing,root]":
+        loader = FileSystemLoader([os.path.join(os.path.dirname(spelling) or ".", "nope"), arg])
+    elif kind == "FS[root,other]":
+        loader = FileSystemLoader([arg, other])
+        roots, exts = [spelling, other], [None]
+    else:
+        raise ValueError(kind)
+    desc = f"{kind}({spec['as']} {spec['spelling']!r})"
+    cfg = Cfg(-1, desc, loader, roots, exts * len(roots) if len(exts) < len(roots) else exts,
+              _rec_env_class()(loader=loader), sc)
+    cfg.rootspec = dict(spec)
+    cfg.rootshape = root_shape(spelling)
+    cfg.keysuffix = "/root:" + cfg.rootshape
+    return cfg
 
 
 def build_configs(sc: Scratch, only: int | None = None) -> list[Cfg]:
@@ -346,16 +513,12 @@ def build_configs(sc: Scratch, only: int | None = None) -> list[Cfg]:
     from liquid2 import FileSystemLoader
     from liquid2 import PackageLoader
 
-    class RecEnv(Environment):
-        def from_string(self, source, *a, **kw):  # noqa: ANN001, ANN002, ANN003
-            if MON.on:
-                p = kw.get("path")
-                MON.built.append((source, None if p is None else str(p)))
-            return super().from_string(source, *a, **kw)
+    RecEnv = _rec_env_class()
 
     A, B, PT, PM = sc.A, sc.B, sc.PT, sc.PM
     W, WT = sc.W, sc.WT
     assert os.path.realpath(os.getcwd()) == W, "shard cwd must be the sandbox site dir"
+    from liquid2 import Environment  # noqa: F401
     table = [
         ("FileSystemLoader(A)",
          lambda: FileSystemLoader(A), [A], [None]),
@@ -480,6 +643,12 @@ def model_outside(name: str, cfg: Cfg) -> bool:
 
 
 _HOMEISH = re.compile(r"~|\$|%HOME%|\*|\?|\[a")
+
+
+def _too_long(name: str) -> bool:
+    b = name.encode("utf-8", "surrogateescape") if not any(
+        0xD800 <= ord(c) <= 0xDBFF for c in name) else b""
+    return len(b) > 3500 or any(len(seg) > 240 for seg in b.split(b"/"))
 
 
 def model_designates_something(name: str, cfg: Cfg) -> bool:
@@ -619,7 +788,9 @@ def directed_names(sc: Scratch, cfg: Cfg) -> list[str]:
               NOUSER + "/a.liquid", "$HOME", "${HOME}", "%HOME%", "~+", "~-", "~.liquid",
               "templates/~", "./~", "sub/~", "~/..", "~/../home/c.liquid", "*", "?", "[a]",
               "*.liquid", "?.liquid", "[a].liquid", "a*", "a?", "[a-z].liquid", "$HOME/a",
-              "$HOME/a.liquid", "${HOME}/a.liquid", "%HOME%.liquid", "{a,b}.liquid"):
+              "$HOME/a.liquid", "${HOME}/a.liquid", "%HOME%.liquid", "{a,b}.liquid",
+              "x" * 300, "x" * 300 + ".liquid", "sub/" + "x" * 300, "x" * 300 + "/a.liquid",
+              "ü" * 200, "a/" * 2500 + "a"):
         add(n)
     # absolute / dotdot names that resolve INSIDE a root (must still be refused)
     for r in cfg.roots:
@@ -822,6 +993,11 @@ class Runner:
                 ctx.count("served_inside")
             elif ob.exc == "TemplateNotFoundError":
                 ctx.count("not_found_inside")
+            elif _too_long(name):
+                # ENAMETOOLONG: the OS refuses to evaluate the name at all; it neither
+                # resolves inside nor outside a root and nothing is read — counted only
+                ctx.count(f"diag:name-too-long:{ob.exc}")
+                ctx.seen("diag_non_escaping_errors", f"{ob.exc}(name too long)@{cfg.kind}")
             elif not model_designates_something(name, cfg):
                 # nothing exists at <root>/<name>[<ext>] for any root: whatever else the
                 # loader made of the name ('~user', '$HOME', globs, ...) it did not resolve
@@ -838,13 +1014,19 @@ class Runner:
         ctx.count("outcome:" + ("ok" if ob.ok else str(ob.exc)))
         ctx.seen("loader_kinds", cfg.kind)
         ctx.seen("access_paths", f"{access}/{mode}")
-        ctx.seen("configs", cfg.desc)
+        if cfg.rootspec is None:
+            ctx.seen("configs", cfg.desc)
+        else:
+            ctx.count("root_family_calls")
+            ctx.seen("root_shapes", cfg.rootshape)
+            if ob.ok:
+                ctx.count("root_family_served_inside:" + cfg.rootshape)
         if ntoks >= 2:
             ctx.nt(symbolic if symbolic is not None else sc.sym(name), cfg.id)
 
         keys = []
         for clause, details in fails.items():
-            key = f"{shape}-name:{clause}@{cfg.kind}"
+            key = f"{shape}-name:{clause}@{cfg.kind}{cfg.keysuffix}"
             keys.append(key)
             what = {
                 "opened-outside-root": "a file outside every search root was opened / returned as template path",
@@ -854,7 +1036,9 @@ class Runner:
             }.get(clause, ("escaping name" if must_fail else "name that designates nothing inside any root")
                   + " failed with " + clause.split(":", 1)[-1] + " instead of TemplateNotFoundError")
             ctx.violation(key, f"{cfg.kind}: {what} ({shape} name)", {
-                "cfg": cfg.id, "cfg_desc": cfg.desc, "access": access, "mode": mode,
+                "cfg": cfg.id, "cfg_desc": cfg.desc, "root_cfg": cfg.rootspec,
+                "search_path_real": [sc.sym(x) for x in cfg.roots],
+                "access": access, "mode": mode,
                 "name": sc.sym(name), "shape": shape, "model_resolves_outside": outside,
                 "outcome": "ok" if ob.ok else ob.exc, "clause": clause,
                 "details": details[:4],
@@ -943,6 +1127,9 @@ def shards(tier: str, seed: int) -> list[dict[str, Any]]:
         specs.append({"kind": "rand", "i": i, "n": nr})
     for i in range(nd):
         specs.append({"kind": "directed", "i": i, "n": nd})
+    nroot = 2 if tier == "quick" else 4
+    for i in range(nroot):
+        specs.append({"kind": "roots", "i": i, "n": nroot})
     return specs
 
 
@@ -963,6 +1150,13 @@ def floors(tier: str) -> dict[str, int]:
         "served_inside": 3_500 if q else 20_000,
         "homeish_names_checked": 280_000 if q else 3_000_000,
         "homeish_names_served_inside": 2_000 if q else 10_000,
+        # root-spelling family (quick: 634 configurations / 30 k calls; thorough: 1420 / 227 k)
+        "root_configs_built": 300 if q else 700,
+        "root_configs_built:dotdot-after-symlink": 100 if q else 220,
+        "root_family_calls": 15_000 if q else 110_000,
+        "root_family_served_inside:dotdot-after-symlink": 2_500 if q else 19_000,
+        "root_family_served_inside:symlink": 1_500 if q else 11_000,
+        "set:root_shapes": 5,
         "max:canaries_planted": 4,
         "selfcheck_ok": 2,
         "set:loader_kinds": 5,
@@ -986,10 +1180,14 @@ def exhaustive(tier: str, merged: dict[str, Any]) -> bool:
     for label, alphabet, maxlen, _ in _families(tier):
         want = count_exhaustive(alphabet, maxlen)
         ok = ok and merged["counters"].get(f"exh_names_done:{label}", 0) == want
+    ok = ok and merged["counters"].get("root_sequences_enumerated", 0) == N_ROOT_SEQUENCES
     return bool(ok)
 
 
 def run_shard(spec: dict[str, Any], ctx: Ctx) -> None:
+    if spec["kind"] == "roots":
+        _roots_shard(spec, ctx)
+        return
     sc = Scratch(hhex(spec["seed"], "c13"))
     try:
         cfgs = build_configs(sc)
@@ -1071,6 +1269,50 @@ def _exh(r: Runner, spec: dict[str, Any], ctx: Ctx) -> None:
                     "max_tokens": maxlen})
 
 
+def _roots_shard(spec: dict[str, Any], ctx: Ctx) -> None:
+    """Root side: every spelling of a search directory (segment sequences over ROOT_SEGS /
+    ROOT_SEGS4 x prefix / separator / trailing / str|Path x loader kind) that the OS
+    resolves to a directory of the sandbox; the oracle root is realpath(spelling)."""
+    sc = Scratch(hhex(spec["seed"], "c13"), cwd="r/site")
+    try:
+        first = make_root_cfg(sc, {"loader": "FS", "as": "str", "spelling": "."})
+        assert first is not None
+        r = Runner(ctx, sc, [first])
+        ctx.mx("max:canaries_planted", len(sc.canaries))
+        r.selfcheck()
+        scheme = "py3" if spec["tier"] == "quick" else "full"
+        nvar = 3 if spec["tier"] == "quick" else 8
+        last = None
+        for idx, seq in enumerate(root_sequences()):
+            ctx.count("root_sequences_enumerated") if spec["i"] == 0 else None
+            if idx % spec["n"] != spec["i"]:
+                continue
+            k = idx // spec["n"]
+            variants = [(ROOT_FORMS[0], "FS")]
+            for j in range(nvar):
+                variants.append((ROOT_FORMS[(k * nvar + j) % len(ROOT_FORMS)],
+                                 ROOT_LOADERS[(k + j) % len(ROOT_LOADERS)]))
+            jobs: list[Any] = []
+            for (prefix, sep, trail, as_), lk in dict.fromkeys(variants):
+                spelling = prefix + sep.join(seq) + trail
+                cfg = make_root_cfg(sc, {"loader": lk, "as": as_, "spelling": spelling})
+                if cfg is None:
+                    ctx.count("root_spellings_not_a_sandbox_directory")
+                    continue
+                ctx.count("root_configs_built")
+                ctx.count("root_configs_built:" + cfg.rootshape)
+                last = cfg.desc
+                for ni, toks in enumerate(ROOT_NAMES):
+                    _expand(r, jobs, k + ni, scheme, max(2, len(seq)),
+                            cfg.desc + "|" + "".join(toks), toks=toks, cfgs=[cfg])
+            r.run_batch(jobs)
+            ctx.check_deadline()
+        ctx.sample({"kind": "root-spelling", "config": last, "names": ["".join(t) for t in ROOT_NAMES]})
+    finally:
+        MON.on = False
+        sc.cleanup()
+
+
 def _rand(r: Runner, spec: dict[str, Any], ctx: Ctx) -> None:
     rng = random.Random(f"{spec['seed']}:rand:{spec['i']}")
     total = 2400 if spec["tier"] == "quick" else 32_000
@@ -1118,9 +1360,14 @@ def _directed(r: Runner, spec: dict[str, Any], ctx: Ctx) -> None:
 
 
 def replay(wit: dict[str, Any], ctx: Ctx) -> None:
-    sc = Scratch(hhex(ctx.seed, "c13"))
+    rootspec = wit.get("root_cfg")
+    sc = Scratch(hhex(ctx.seed, "c13"), cwd="r/site" if rootspec else "w/site")
     try:
-        cfg = build_configs(sc, only=int(wit["cfg"]))[0]
+        if rootspec:
+            cfg = make_root_cfg(sc, rootspec)
+            assert cfg is not None, "witness spelling no longer designates a directory"
+        else:
+            cfg = build_configs(sc, only=int(wit["cfg"]))[0]
         r = Runner(ctx, sc, [cfg])
         r.selfcheck()  # also warms up the lazy imports of the executor machinery
         r.verbose = True
